@@ -27,15 +27,23 @@ class Prop:
                   "histories whose registered/restarted deadlines are valid Timestamps: whenever the loop may poll with a "
                   "pending timer the timerfd is readable or armed no later than max(earliest deadline, arm time + 100 us)); "
                   "eventually_runs (one-step liveness: clock reading >= deadline, then the timerfd fires, then one "
-                  "iteration runs the timer). Constants and guards are re-extracted from /repo on every run (T1) and the "
-                  "model is tied to the real classes by the differential run")
+                  "iteration runs the timer); addTime_exact_in_range (the deadline arithmetic, translated with the C type "
+                  "of every intermediate value - 32-bit ones wrap at 2^31 - is exactly timestamp + delay for every delay "
+                  "and sum representable as int64_t microseconds, also when the 64-bit operations are wrapped; "
+                  "delay_deadline: runAfter/runEvery/restart deadlines are reading + delay for delays of any size) and "
+                  "arm_exact_in_range (the timespec for timerfd_settime is computed without wrap-around whenever "
+                  "deadline - reading fits an int64_t). Constants and guards are re-extracted from /repo on every run (T1) "
+                  "and the model is tied to the real classes by the differential run")
     level_note = ("Trusted: Lean kernel (propext, Classical.choice, Quot.sound only), vlib/extract.py + vlib/gen/timer.py, the "
                   "hand-written parts of Model/Timer.lean as far as the differential run exercises them (ghost fields of the "
                   "events — addr, rep, first, delta, k, found — and the ghost event `restarted` are not compared), the harness "
                   "(virtual clock and virtual timerfd of interpose.h), std::set/std::function/glibc malloc. armed and "
                   "eventually_runs carry the explicit hypothesis ValidTr (every deadline put into timers_ is > 0 us since the "
                   "epoch); the excluded branch is described by armed_excluded_branch (reset() does not re-arm) and shown to "
-                  "matter by armed_needs_valid_deadlines (deadline -5 us, clock -10 us: the queue stays unarmed). "
+                  "matter by armed_needs_valid_deadlines (deadline -5 us, clock -10 us: the queue stays unarmed; it needs a reading "
+                  "before 1970 - under a real clock runAt(Timestamp::invalid()) from outside or inside a callback is armed by "
+                  "addTimerInLoop with the 100 us floor and runs in the next batch although reset() skips it: tested by corpus "
+                  "W4 and the generator's zero/negative deadlines, oracle `disarmed`, not proved). "
                   "eventually_runs is a progress step under the environment inputs now/expire/iter (EnvTimerfdFires = the "
                   "kernel makes an armed timerfd readable), not a fairness theorem over infinite runs. Not proved: that the "
                   "clock reading at the moment of the callback is >= the batch reading (needs a monotone-clock hypothesis); "
@@ -48,11 +56,20 @@ class Prop:
             "timer is cancelled from outside a callback (loop thread, foreign thread) while the descriptor is armed, then the "
             "old expiry passes and the loop iterates with nothing due (oracle: an iteration woken by the timer descriptor leaves "
             "it drained unless an alarm set in that iteration expired - `timerfd-not-drained`); each case ends with drain rounds; "
+            "histories with delays / intervals / deadlines beyond the widths of the 32-bit types under the virtual clock "
+            "(2147 s, 2^31 us, 2^32 us, an hour, a day, 30 days, a year, ten years, 2^31 s, 2^32 s for runAfter and runEvery - "
+            "the k-th run followed through several intervals - and runAt; deadlines at the ends of a 32-bit time_t (2038), an "
+            "unsigned one (2106), an int64_t count of nanoseconds (2262), the year 2500 and the last microsecond of the "
+            "int64_t range; optionally after a jump of the clock to just before those instants; the clock stops just before "
+            "each far deadline - nothing may run - and then on it); the same far values are mixed into the random programs; "
             "a case is non-trivial when at least one callback ran; distinct = distinct event traces")
     trusted_base = [
         "Lean 4.33.0 kernel; axioms allowed: propext, Classical.choice, Quot.sound",
         "vlib/extract.py + vlib/gen/timer.py (clang-14 JSON AST -> Generated/Timer.lean: howMuchTimeFromNow incl. the floor, addTime, "
-        "Timer::restart, the getExpired sentinel, the guards of insert/addTimerInLoop/cancelInLoop/reset, order of sequence read and hand-over in addTimer)",
+        "Timer::restart, the getExpired sentinel, the guards of insert/addTimerInLoop/cancelInLoop/reset, order of sequence read and hand-over in addTimer; "
+        "addTime and howMuchTimeFromNow statement by statement with the C type of every intermediate value: 32-bit integer results are "
+        "wrapped (two's complement, what g++ computes on x86-64), 64-bit ones exact in the definitions the model uses and wrapped in the "
+        "`...W` variants, a double is an exact rational, double -> integer truncates towards zero)",
         "vlib/gen/timerskel.py (clang-14 JSON AST -> Generated/TimerSkel.lean: statement skeletons of the 12 modelled functions of "
         "TimerQueue.cc/Timer.cc) and the reading of Model/Timer.lean written down in Model/TimerSkelDecl.lean; the two are proved equal "
         "(statement_order_tied)",
@@ -66,7 +83,13 @@ class Prop:
         "eventually_runs it appears as the explicit inputs In.expire / In.iter",
         "ValidTr (armed, eventually_runs): deadlines put into timers_ are valid Timestamps (> 0 us since the epoch)",
         "Timer addresses are below UINTPTR_MAX and non-null (the getExpired sentinel); `new` returns an address that is not live",
-        "intervals/delays are passed as doubles whose product with 1e6 truncates to the stated integer (the generator only uses such values)",
+        "intervals/delays are passed as doubles whose product with 1e6 truncates to the stated integer (the generator only uses such values; "
+        "the harness refuses others: `inexact-interval`); inside addTime a double stands for the exact rational us / 10^6 and double "
+        "arithmetic for exact rational arithmetic (addTime_exact_in_range is relative to this)",
+        "microsecond counts (clock readings, deadlines, clock + delay) stay representable as int64_t (until the year 294247): the model "
+        "computes them as exact integers; addTime_exact_in_range / arm_exact_in_range show that the machine's wrapped 64-bit arithmetic "
+        "gives the same values there; relative times handed to timerfd_settime stay below 292 years (limit of the harness' report in "
+        "nanoseconds, not of muduo)",
     ]
     partial_theorems = []
 
